@@ -736,6 +736,10 @@ fn main() {
         (Solver::Bicgstab, vec![vec![2.0, -1.0], vec![-4.0, -7.0]], vec![1.0, 1.0], vec![0.0, 0.0]),
         (Solver::Bicg1, upwind.clone(), vec![1.0; 40], vec![0.0; 40]),
         (Solver::Qmr, upwind, vec![1.0; 40], vec![0.0; 40]),
+        // eighth hunt: sparse right-hand sides on sparse dominant matrices with a positive diagonal - a breakdown that is exact in real
+        // arithmetic comes out as 1e-33, passes the `== 0.0` tests and is divided by (BiCG diverges to 1e21; QMR stagnates at 0.2)
+        (Solver::Bicg1, vec![vec![0.9, 0.0, -0.5], vec![-0.6, 2.5, 0.0], vec![0.0, -0.1, 2.3]], vec![0.0, 0.0, 1.2], vec![0.0, 0.0, 0.0]),
+        (Solver::Qmr, vec![vec![0.8, 0.0, -0.3, 0.0], vec![0.6, 1.2, 0.0, 0.0], vec![0.0, 0.0, 0.9, -0.2], vec![0.0, -0.4, 0.0, 1.4]], vec![0.0, 0.0, 3.1, 0.0], vec![0.0, 0.0, 0.0, 0.0]),
     ];
     ctx.known_finding_space("representative exact Lanczos breakdowns (strictly dominant systems)");
     ctx.lattice(
